@@ -20,11 +20,28 @@ Checks (one small `def` each, so that each has its own soundness lemma in `Proof
 * K5 (C11)      block-address kinds store offset 0; data-address kinds a non-zero offset, the same for all
                 handles of one block
 * K6 (C12)      a union handle keeps its variant and block (ops other than `drop` / `dropAll`)
+* K7 (C08)      `make_mut` / `make_unique`: a sole owner keeps its allocation (no `Clone`, no allocation); a shared
+                handle is redirected to a fresh, solely owned allocation with one `Clone`, the old allocation loses one
+                owner, and no other handle on it sees the write; the write target shows the written value
+* K8 (C09)      `try_unwrap` (granted) / `into_inner` move the value out: no destructor, the allocation is released;
+                `unwrap_or_clone` on a sole owner neither clones nor destroys, on a shared handle clones exactly once
+                (for the value it hands out) and releases one owner
+* K9 (C10)      `ThinArc` ⇄ fat / raw conversions and a successful `into_thin` keep block, length, contents, owners and
+                do nothing else; a refused `into_thin` releases its argument
+* K10 (C15)     dropping a handle whose view is `MaybeUninit` runs no element destructor (only the header's);
+                `assume_init` is a cast
 -/
 namespace M1
 namespace Mon
 
-/-- what one slot probe shows (the digest string is not used by the monitor) -/
+/-- what `Deref` shows through a view: the digest `h<id>.<val>[<id>.<val>,…]` of the line protocol, structured
+(`digest` in `Model/Ops.lean` is its string form) -/
+structure Dig where
+  hdr : Option Item                      -- `h<id>.<val>`, if the payload has a droppable header
+  elems : Option (List (Option Item))    -- `[…]` (`?` = never written); `none` = `-`, a view whose elements are `MaybeUninit`
+deriving Repr, DecidableEq, Inhabited
+
+/-- what one slot probe shows -/
 structure SlotObs where
   kind : Kind
   ty : Ty
@@ -32,6 +49,7 @@ structure SlotObs where
   off : Nat
   len : Nat
   cnt : Option Nat        -- `none` for kinds without a count accessor (uniq, raw, rawThin)
+  vals : Option Dig       -- the digest; `none` = `!` (no such block; never happens on a reachable state)
 deriving Repr, DecidableEq, Inhabited
 
 /-- one observation line, structured -/
@@ -39,6 +57,7 @@ structure Obs where
   panicked : Bool                 -- status starts with "panic"
   badOp : Bool                    -- status = "bad-op"
   verdict : Option Bool           -- for gate ops: what the gate answered, `none` if not a gate / not applicable
+  valOut : Bool                   -- the `out=` field is not `val=?` (`unwrap_or_clone`: a value was handed out)
   evs : List Event                -- the events of this op
   slots : List (Nat × SlotObs)    -- probe AFTER the op
 deriving Repr, Inhabited
@@ -54,7 +73,13 @@ def obsCnt (m : Mem) (h : HV) : Option Nat :=
   | .uniq | .raw | .rawThin => none
   | _ => some (loadCount m h.blk)
 
-def slotObs (m : Mem) (h : HV) : SlotObs := ⟨h.kind, h.ty, h.blk, h.off, viewLen m h, obsCnt m h⟩
+/-- `digest`, structured -/
+def digObs (m : Mem) (h : HV) : Option Dig :=
+  match m.blocks[h.blk]? with
+  | none => none
+  | some k => some ⟨k.hdr, if h.ty.elemsInit then some (k.elems.take (viewLen m h)) else none⟩
+
+def slotObs (m : Mem) (h : HV) : SlotObs := ⟨h.kind, h.ty, h.blk, h.off, viewLen m h, obsCnt m h, digObs m h⟩
 
 /-- the probe of every slot of a model state (in slot-table order; the monitor never depends on the order) -/
 def observeSlots (s : State) : List (Nat × SlotObs) := s.slots.map fun e => (e.1, slotObs s.mem e.2)
@@ -84,12 +109,16 @@ def verdictOfOut (op : Op) (out : String) : Option Bool :=
 
 def verdictOf (op : Op) (o : Out) : Option Bool := verdictOfOut op o.out
 
+/-- the `out=` field is not `val=?`, the answer of an `unwrap_or_clone` / `into_inner` that found no value -/
+def valShown (out : String) : Bool := !(out.toList == ['v', 'a', 'l', '=', '?'])
+
 /-- the observation the model produces for `op` in state `s0` -/
 def observe (s0 : State) (op : Op) : Obs :=
   let r := step s0 op
   { panicked := isPanicStatus r.2.status
     badOp := isBadOpStatus r.2.status
     verdict := verdictOf op r.2
+    valOut := valShown r.2.out
     evs := r.1.mem.log.drop s0.mem.log.length
     slots := observeSlots r.1 }
 
@@ -124,12 +153,25 @@ inductive Fail
   | dataAddrZero (tag : String) (slot : Nat)                           -- K5
   | dataAddrDiffer (tag : String) (slot slot' blk : Nat)               -- K5
   | unionChanged (tag : String) (slot : Nat)                           -- K6
+  | cowGone (tag : String) (slot : Nat)                                -- K7
+  | cowMoved (tag : String) (slot blk : Nat)                           -- K7
+  | cowKept (tag : String) (slot blk : Nat)                            -- K7
+  | cowVisible (tag : String) (slot other : Nat)                       -- K7
+  | cowLost (tag : String) (slot want : Nat)                           -- K7
+  | unwrapEvents (tag : String) (slot : Nat)                           -- K8
+  | unwrapOwners (tag : String) (slot blk : Nat)                       -- K8
+  | thinChanged (tag : String) (slot : Nat)                            -- K9
+  | thinRefusal (tag : String) (slot : Nat)                            -- K9
+  | uninitDrop (tag : String) (slot : Nat)                             -- K10
+  | assumeInitChanged (tag : String) (slot : Nat)                      -- K10
 deriving Repr, DecidableEq, Inhabited
 
 def Fail.tag : Fail → String
   | .countMismatch t .. | .freeNotLive t .. | .freeLayout t .. | .freeOwned t .. | .doubleDrop t ..
   | .leak t .. | .gateVerdict t .. | .gateDecline t .. | .blockAddrOff t .. | .dataAddrZero t ..
-  | .dataAddrDiffer t .. | .unionChanged t .. => t
+  | .dataAddrDiffer t .. | .unionChanged t .. | .cowGone t .. | .cowMoved t .. | .cowKept t .. | .cowVisible t ..
+  | .cowLost t .. | .unwrapEvents t .. | .unwrapOwners t .. | .thinChanged t .. | .thinRefusal t ..
+  | .uninitDrop t .. | .assumeInitChanged t .. => t
 
 def Fail.msg : Fail → String
   | .countMismatch _ i b n k => s!"slot s{i} reports count {n} but {k} owning handle(s) refer to b{b}"
@@ -144,6 +186,17 @@ def Fail.msg : Fail → String
   | .dataAddrZero _ i => s!"slot s{i} of a data-address kind stores offset 0"
   | .dataAddrDiffer _ i j b => s!"slots s{i} and s{j} on b{b} store different data addresses"
   | .unionChanged _ i => s!"union slot s{i} changed variant or allocation"
+  | .cowGone _ i => s!"make_mut / make_unique on s{i} succeeded but the slot is gone"
+  | .cowMoved _ i b => s!"make_mut / make_unique on s{i}, sole owner of b{b}: changed allocation, cloned or allocated"
+  | .cowKept _ i b => s!"make_mut / make_unique on s{i}, shared b{b}: not redirected to a fresh solely-owned allocation with one Clone and one owner less on b{b}"
+  | .cowVisible _ i j => s!"the write through make_mut / make_unique on s{i} is visible through s{j}"
+  | .cowLost _ i v => s!"after make_mut / make_unique on s{i} the write target does not show {v}"
+  | .unwrapEvents _ i => s!"unwrapping s{i} as sole owner: a destructor or Clone ran, or the allocation was not released"
+  | .unwrapOwners _ i b => s!"unwrap_or_clone on shared s{i}: not exactly one Clone, or b{b} did not lose exactly one owner"
+  | .thinChanged _ i => s!"thin / fat conversion of s{i} changed block, length, contents or owners, or emitted events"
+  | .thinRefusal _ i => s!"into_thin on s{i} panicked without releasing its argument"
+  | .uninitDrop _ i => s!"dropping s{i} (MaybeUninit view) ran an element destructor"
+  | .assumeInitChanged _ i => s!"assume_init on s{i} changed block or count, or emitted events"
 
 /-! ### K1 -/
 
@@ -269,6 +322,188 @@ def k6One (post : List (Nat × SlotObs)) (e : Nat × SlotObs) : Option Fail :=
 def checkK6 (pre : List (Nat × SlotObs)) (op : Op) (o : Obs) : List Fail :=
   if k6Applies op then pre.filterMap (k6One o.slots) else []
 
+/-! ### event classifiers used by K7 – K10 (only COUNTS of events are used, so the verdicts do not depend on their order) -/
+
+def isCloneEv : Event → Bool
+  | .clone .. => true
+  | _ => false
+
+def isDropEv : Event → Bool
+  | .drop _ => true
+  | _ => false
+
+def isDeallocEv (b : Nat) : Event → Bool
+  | .dealloc b' _ _ => b' == b
+  | _ => false
+
+/-- a destructor event for an identity other than `keep` -/
+def isDropOther (keep : Option Nat) : Event → Bool
+  | .drop id => keep != some id
+  | _ => false
+
+/-! ### K7 (C08) -/
+
+/-- the slot a copy-on-write op works on, and the value it writes -/
+def cowSrc : Op → Option (Nat × Nat)
+  | .makeMut src v _ | .makeUnique src v _ => some (src, v)
+  | _ => none
+
+/-- the `val` of the designated target of a write (`writeVal`): the header if there is one, else the first element -/
+def Dig.target (d : Dig) : Option Nat :=
+  match d.hdr with
+  | some it => some it.val
+  | none =>
+    match d.elems with
+    | some (some it :: _) => some it.val
+    | _ => none
+
+/-- the first element is shown and written -/
+def Dig.firstShown (d : Dig) : Bool :=
+  match d.elems with
+  | some (some _ :: _) => true
+  | _ => false
+
+/-- the write target, if the probe shows one, shows `v` -/
+def targetOk (q : SlotObs) (v : Nat) : Bool :=
+  match q.vals with
+  | some d => (match d.target with | some x => x == v | none => true)
+  | none => true
+
+/-- exactly one `Clone` for the value the redirected handle shows (none if it shows no value: a handle on a
+never-written slot — the model clones nothing then; the real library never gets there) -/
+def clonesOk (q : SlotObs) (clones : Nat) : Bool :=
+  clones == (if (match q.vals with | some d => d.firstShown | none => false) then 1 else 0)
+
+/-- another slot that was on `b`: still there, still on `b`, showing what it showed -/
+def k7Other (post : List (Nat × SlotObs)) (b src : Nat) (e : Nat × SlotObs) : Option Fail :=
+  if e.1 != src && e.2.blk == b then
+    match lookupO post e.1 with
+    | some q => if q.blk == b && q.vals == e.2.vals then none else some (.cowVisible "C08" src e.1)
+    | none => some (.cowVisible "C08" src e.1)
+  else none
+
+def checkK7 (pre : List (Nat × SlotObs)) (op : Op) (o : Obs) : List Fail :=
+  match cowSrc op with
+  | none => []
+  | some (src, v) =>
+    if o.badOp || o.panicked then [] else
+    match lookupO pre src with
+    | none => []
+    | some p =>
+      match lookupO o.slots src with
+      | none => [.cowGone "C08" src]
+      | some q =>
+        (if ownersO pre p.blk == 1 then
+          (if q.blk == p.blk && o.evs.countP isCloneEv == 0 && o.evs.countP isAllocEv == 0 then []
+           else [.cowMoved "C08" src p.blk])
+         else
+          (if q.blk != p.blk && clonesOk q (o.evs.countP isCloneEv) && ownersO o.slots q.blk == 1 &&
+              ownersO o.slots p.blk + 1 == ownersO pre p.blk then []
+           else [.cowKept "C08" src p.blk]) ++
+          pre.filterMap (k7Other o.slots p.blk src)) ++
+        (if targetOk q v then [] else [.cowLost "C08" src v])
+
+/-! ### K8 (C09) -/
+
+/-- the value was moved out: no destructor ran, the allocation was released -/
+def movedOut (b : Nat) (o : Obs) : Bool :=
+  o.evs.countP isDropEv == 0 && o.evs.countP (isDeallocEv b) != 0
+
+def checkK8 (pre : List (Nat × SlotObs)) (op : Op) (o : Obs) : List Fail :=
+  match op with
+  | .tryUnwrap src =>
+    if o.badOp then [] else
+    match lookupO pre src, o.verdict with
+    | some p, some true => if movedOut p.blk o then [] else [.unwrapEvents "C09" src]
+    | _, _ => []
+  | .intoInner src =>
+    if o.badOp then [] else
+    match lookupO pre src with
+    | some p => if movedOut p.blk o then [] else [.unwrapEvents "C09" src]
+    | none => []
+  | .unwrapOrClone src _ =>
+    if o.badOp || o.panicked then [] else
+    match lookupO pre src with
+    | some p =>
+      if ownersO pre p.blk == 1 then
+        (if o.evs.countP isCloneEv == 0 && o.evs.countP isDropEv == 0 then [] else [.unwrapEvents "C09" src])
+      else
+        (if o.evs.countP isCloneEv == (if o.valOut then 1 else 0) &&
+            ownersO o.slots p.blk + 1 == ownersO pre p.blk then []
+         else [.unwrapOwners "C09" src p.blk])
+    | none => []
+  | _ => []
+
+/-! ### K9 (C10) -/
+
+def thinConv : Conv → Bool
+  | .fromThin | .thinIntoRaw | .thinFromRaw => true
+  | _ => false
+
+/-- slot `src` keeps block, length and contents; nothing happened; the block has the owners it had -/
+def keptView (pre : List (Nat × SlotObs)) (src : Nat) (p : SlotObs) (o : Obs) : Bool :=
+  match lookupO o.slots src with
+  | some q => q.blk == p.blk && q.len == p.len && q.vals == p.vals && o.evs.isEmpty &&
+      ownersO o.slots p.blk == ownersO pre p.blk
+  | none => false
+
+/-- the refused `into_thin` released its argument: the slot is gone, the block has one owner less, the remaining
+handles on it report that count, and the last owner's release frees the block -/
+def refusedReleased (pre : List (Nat × SlotObs)) (src : Nat) (p : SlotObs) (o : Obs) : Bool :=
+  (lookupO o.slots src).isNone && ownersO o.slots p.blk + 1 == ownersO pre p.blk &&
+  o.slots.all (fun e => e.2.blk != p.blk || e.2.cnt.all (fun c => c + 1 == ownersO pre p.blk)) &&
+  (ownersO pre p.blk != 1 || o.evs.countP (isDeallocEv p.blk) != 0)
+
+def checkK9 (pre : List (Nat × SlotObs)) (op : Op) (o : Obs) : List Fail :=
+  match op with
+  | .conv src c =>
+    if thinConv c && !o.badOp && !o.panicked then
+      match lookupO pre src with
+      | some p => if keptView pre src p o then [] else [.thinChanged "C10" src]
+      | none => []
+    else []
+  | .intoThin src =>
+    if o.badOp then [] else
+    match lookupO pre src with
+    | some p =>
+      if o.panicked then (if refusedReleased pre src p o then [] else [.thinRefusal "C10" src])
+      else (if keptView pre src p o then [] else [.thinChanged "C10" src])
+    | none => []
+  | _ => []
+
+/-! ### K10 (C15)
+
+The Python monitor's clause is "no destructor event for an identity that a `writeSlot` into that block has stored".
+The check here is stronger and needs no bookkeeping: dropping a handle whose view is `MaybeUninit` runs NO destructor
+except the header's (whose identity the probe before the op shows).  With distinct identities (what the generator
+guarantees) a written identity is never the header's, so this implies the Python clause. -/
+
+/-- the identity of the header the probe shows -/
+def hdrIdO (p : SlotObs) : Option Nat := (p.vals.bind (·.hdr)).map (·.id)
+
+def isAssumeInit : Conv → Bool
+  | .assumeInit => true
+  | _ => false
+
+def checkK10 (pre : List (Nat × SlotObs)) (op : Op) (o : Obs) : List Fail :=
+  match op with
+  | .drop src =>
+    if o.badOp then [] else
+    match lookupO pre src with
+    | some p =>
+      if !p.ty.elemsInit && o.evs.countP (isDropOther (hdrIdO p)) != 0 then [.uninitDrop "C15" src] else []
+    | none => []
+  | .conv src c =>
+    if isAssumeInit c && !o.badOp && !o.panicked then
+      match lookupO pre src with
+      | some p =>
+        (match lookupO o.slots src with
+         | some q => if q.blk == p.blk && q.cnt == p.cnt && o.evs.isEmpty then [] else [.assumeInitChanged "C15" src]
+         | none => [.assumeInitChanged "C15" src])
+      | none => []
+    else []
+  | _ => []
+
 /-! ### one observation -/
 
 /-- the op-independent checks K1 K2 K3 K5 (also run for driver-level ops that are not an `Op`) -/
@@ -281,7 +516,8 @@ def checkObsOnly (st : MSt) (o : Obs) : MSt × List Fail :=
 /-- all checks for one op and its observation; the new state remembers the probe -/
 def checkOp (st : MSt) (op : Op) (o : Obs) : MSt × List Fail :=
   let r := checkObsOnly st o
-  (r.1, r.2 ++ checkK4 st.pre op o ++ checkK6 st.pre op o)
+  (r.1, r.2 ++ checkK4 st.pre op o ++ checkK6 st.pre op o ++ checkK7 st.pre op o ++ checkK8 st.pre op o ++
+    checkK9 st.pre op o ++ checkK10 st.pre op o)
 
 def checkAll (st : MSt) : List (Op × Obs) → List Fail
   | [] => []
@@ -290,8 +526,24 @@ def checkAll (st : MSt) : List (Op × Obs) → List Fail
 /-- run the monitor over a whole trace, from the initial monitor state -/
 def checkTrace (l : List (Op × Obs)) : List Fail := checkAll MSt.init l
 
-/-- checks whose soundness on the model is not proved (none at present) -/
-def unprovenChecks (_st : MSt) (_op : Op) (_o : Obs) : List Fail := []
+/-- checks whose soundness on the model is not proved; they are NOT part of `checkOp` and `drv_mon` does not run them.
+
+The unconditional forms of two clauses of K7: a shared `make_mut` / `make_unique` emits exactly one `clone` event, and
+the write target afterwards shows the written value.  `checkK7` has them in the conditional forms `clonesOk` (one `clone`
+event iff the redirected handle shows a value) and `targetOk` (the target, if shown, shows the value).  The two forms
+agree whenever the handle's first element is written — true of every handle with an initialised view in every
+reachable state of the model (and always of the real library), but that invariant of `step` ("a view whose elements
+count as initialised only sees written slots") is not proved. -/
+def unprovenChecks (st : MSt) (op : Op) (o : Obs) : List Fail :=
+  match cowSrc op with
+  | none => []
+  | some (src, v) =>
+    if o.badOp || o.panicked then [] else
+    match lookupO st.pre src, lookupO o.slots src with
+    | some p, some q =>
+      (if ownersO st.pre p.blk != 1 && o.evs.countP isCloneEv != 1 then [.cowKept "C08" src p.blk] else []) ++
+      (if (q.vals.bind Dig.target) == some v then [] else [.cowLost "C08" src v])
+    | _, _ => []
 
 end Mon
 end M1
